@@ -49,8 +49,8 @@ RS = (0.5, 1.5, 5.0)
 INTERVALS = ((0.0, 1.0), (0.2, 3.0), (1e-3, 20.0))
 POS_INTERVALS = ((0.2, 3.0), (1e-3, 20.0), (1e-5, 150.0))
 BS = (5.0, 29.0)
-KS = (1, 2, 2.5, 3, 4)
-MS = (1, 1.5, 2, 3, 4, 5)
+KS = (1, 2, 2.5, 3, 4, 0.5, 0.75)
+MS = (1, 1.5, 2, 3, 4, 5, 0.5)
 TRIM = (True, False)
 
 
